@@ -482,6 +482,41 @@ def chunk_power(rep):
     rep.floor("loops bounding a power of the text radix by BINT_RADIX", n, 1)
 
 
+def immediate_range(rep):
+    """Small integers are kept in the pointer word itself; an immediate is negated in place, without a range check (bintNegate,
+    the BINT_NEGATE macro, and through them times -1, mod, gcd, abs).  That is right only because the immediate range is
+    symmetric: INT_MIN_IMMED = -INT_MAX_IMMED.  Letting the smallest immediate be -2^62 (`the usual two's complement range`)
+    is sound for the tag and wrong for every negation: -(-2^62) comes back as -2^62, x + (-x) is -2^63, and the value has two
+    representations that bintEQ calls unequal.  The two bounds, as the front end evaluates them, add up to zero."""
+    f = common.extract("bigint.c", "runtime", all_trees=True)
+    vals = {}
+    for fn in f.funcs.values():
+        if "body" not in fn:
+            continue
+        par = common.parents(fn["body"])
+        for x in walk(fn["body"]):
+            m = x.get("imac") or x.get("mac")
+            if m in ("INT_MIN_IMMED", "INT_MAX_IMMED") and x["k"] == "ParenExpr" and const_value(x) is not None:
+                p_ = par.get(x["id"])
+                if p_ is not None and (p_.get("imac") or p_.get("mac")) == m:
+                    continue                      # an inner parenthesis of the same expansion
+                vals.setdefault(m, set()).add(const_value(x))
+    if set(vals) != {"INT_MIN_IMMED", "INT_MAX_IMMED"} or any(len(v) != 1 for v in vals.values()):
+        raise AnalysisBroken("bigint.c: the values of INT_MIN_IMMED / INT_MAX_IMMED could not be read (%s)" % vals)
+    lo, hi = vals["INT_MIN_IMMED"].pop(), vals["INT_MAX_IMMED"].pop()
+    if lo >= 1 << 63:
+        lo -= 1 << 64
+    if hi >= 1 << 63:
+        hi -= 1 << 64
+    if lo + hi == 0 and lo < 0:
+        rep.ok("N11", "immediate-range-symmetric", sample={"min": lo, "max": hi})
+    else:
+        rep.violation("N11", "immediate-range-symmetric", "bigint.c (INT_MIN_IMMED, INT_MAX_IMMED)",
+                      "the immediate range is %d .. %d: an immediate is negated without a range check, so the negation of %d is "
+                      "not representable as an immediate and comes back as the same value (x + (-x) = 2x, |x| negative, "
+                      "(-x) mod m wrong) -- only for that one operand" % (lo, hi, lo if -lo > hi else hi))
+
+
 def run(tier, only=None):
     rep = common.Report("C11", tier, EXPLANATION)
     c04_builtins.carry_steps(rep, rule="N1")
@@ -503,6 +538,7 @@ def run(tier, only=None):
     order_duals(rep)
     carry_chain(rep)
     chunk_power(rep)
+    immediate_range(rep)
     from . import deadstore
     deadstore.report(rep, "N9", ("dword.c", "bigint.c", "foam_i.c"), floor_units=3)
     rep.floor("C11 structural obligations", rep.obligations, 15)
